@@ -20,3 +20,7 @@ Definition x_sl_full_run (n : N) (e : Envf) (pts : list BPf) (fmax : float) (s :
 (* the whole walk: end state (and the number of steps taken is visible in k.i) *)
 Definition x_sl_full_walk (fuel : N) (e : Envf) (pts : list BPf) (offset_end fmax : float) (s : SLStatef) (con : Consistf) : list out :=
   res_outs (sl_full_walk (N.to_nat fuel) e pts offset_end fmax (s, con)) (fun r => sl_outs (fst r) ++ consist_outs (snd r)).
+
+Definition x_ss_full_walk (fuel : N) (e : Envf) (times speeds : list float) (fmax : float) (st : TStatef)
+    (c : ResCache) (con : Consistf) : list out :=
+  res_outs (ss_full_walk (N.to_nat fuel) e times speeds fmax ((st, c), con)) (fun r => sc_outs (fst r) ++ consist_outs (snd r)).
